@@ -41,6 +41,7 @@ func init() {
 			{ID: "R15t", Floor: 1, Doc: "the announced size counts a block once, as the writing pass writes it once: the counting link system adds a section's size only when the block is loaded for the first time", Run: ruleR15t},
 			{ID: "R15u", Floor: 1, Doc: "the payload pass starts its offsets at the size of the CARv1 header just written: the initial offset of the teeing link system in WriteV1 includes no padding and no data offset", Run: ruleR15u},
 			{ID: "R15v", Floor: 3, Doc: "traversalCar.WriteTo returns the number of bytes it handed to the writer: the count of every counting write (header, payload pass, index padding, index) is part of every return that follows it", Run: ruleR15v},
+			{ID: "R15w", Floor: 1, Doc: "traversalCar.WriteV2Header pads up to DataOffset: the zero bytes behind the header number DataOffset minus the pragma and the header just written", Run: ruleR15w},
 			{ID: "R15c", Floor: 1, Doc: "size-mismatch guard", Run: ruleR15c},
 			{ID: "R15i", Floor: 8, Doc: "the announced section size and the written framing come from the same length formula (= R01b)", Run: ruleR01b},
 		},
@@ -225,6 +226,91 @@ func ruleR15a(c *Ctx, r *Report) {
 	}
 }
 
+// filledBufferLen: v is `buf.Len()` of a bytes.Buffer that starts empty (a fresh local) and is
+// written by exactly one call, a ReadFrom that comes before: the number of bytes that ReadFrom read.
+// Returns that ReadFrom call.
+func filledBufferLen(v ssa.Value) *ssa.Call {
+	lc, ok := v.(*ssa.Call)
+	if !ok || !funcIs(calleeFunc(lc.Common()), "bytes", "Buffer", "Len") || len(lc.Call.Args) != 1 {
+		return nil
+	}
+	// the buffer: a local bytes.Buffer, new(bytes.Buffer), or bytes.NewBuffer(nil)
+	var al ssa.Value
+	switch b := lc.Call.Args[0].(type) {
+	case *ssa.Alloc:
+		al = b
+	case *ssa.Call:
+		if funcIs(calleeFunc(b.Common()), "bytes", "", "NewBuffer") && len(b.Call.Args) == 1 && isNilConst(b.Call.Args[0]) {
+			al = b
+		}
+	}
+	if al == nil || al.Referrers() == nil {
+		return nil
+	}
+	var rf *ssa.Call
+	for _, ref := range *al.Referrers() {
+		switch x := ref.(type) {
+		case *ssa.Call:
+			f := calleeFunc(x.Common())
+			switch {
+			case funcIs(f, "bytes", "Buffer", "ReadFrom"):
+				if rf != nil {
+					return nil
+				}
+				rf = x
+			case f != nil && (f.Name() == "Len" || f.Name() == "Bytes" || f.Name() == "Cap" || f.Name() == "String"):
+			default:
+				return nil // any other method may write (Write, Reset, Truncate, Read, Next, Grow)
+			}
+		case *ssa.DebugRef:
+		case *ssa.MakeInterface:
+			// handed on as a reader: reading drains it, and then Len is no longer what was read —
+			// harmless only where the hand-over cannot come before the Len
+			if x.Block() == lc.Block() && instrBefore(x, lc) || x.Block() != lc.Block() && blockReaches(x.Block(), lc.Block()) {
+				return nil
+			}
+		case *ssa.Store:
+			return nil
+		default:
+			return nil
+		}
+	}
+	if rf == nil || !(rf.Block() == lc.Block() && instrBefore(rf, lc) || rf.Block() != lc.Block() && rf.Block().Dominates(lc.Block())) {
+		return nil
+	}
+	return rf
+}
+
+func blockReaches(a, b *ssa.BasicBlock) bool {
+	seen := map[*ssa.BasicBlock]bool{a: true}
+	for work := []*ssa.BasicBlock{a}; len(work) > 0; {
+		x := work[len(work)-1]
+		work = work[:len(work)-1]
+		for _, s := range x.Succs {
+			if s == b {
+				return true
+			}
+			if !seen[s] {
+				seen[s] = true
+				work = append(work, s)
+			}
+		}
+	}
+	return false
+}
+
+func instrBefore(a, b ssa.Instruction) bool {
+	for _, in := range a.Block().Instrs {
+		if in == a {
+			return true
+		}
+		if in == b {
+			return false
+		}
+	}
+	return false
+}
+
 func ruleR15b(c *Ctx, r *Report) {
 	// ---- counting loader
 	if fn, err := c.Func(pkgLoader, "", "CountingLinkSystem"); err != nil {
@@ -242,6 +328,9 @@ func ruleR15b(c *Ctx, r *Report) {
 		env := &AffEnv{name: func(v ssa.Value) string {
 			if n != nil && canon(v) == n {
 				return "n"
+			}
+			if filledBufferLen(canon(v)) != nil {
+				return "n" // buf.Len() of the buffer that ReadFrom has just filled from empty
 			}
 			if fv, _ := fieldOfLoad(canon(v)); fv != nil && fv.Name() == "totalRead" {
 				return "T"
